@@ -8,6 +8,10 @@
 -/
 import PdsVerif.Lemmas.ShortenInterp
 import PdsVerif.Lemmas.ShortenWord
+import PdsVerif.Lemmas.ShortenFuel
+import PdsVerif.Lemmas.ShortenFile
+import PdsVerif.Lemmas.ShortenExists
+import PdsVerif.Lemmas.ShortenTables
 
 namespace PdsVerif.C13
 open PdsVerif.Model.Shorten PdsVerif.Gen.Shorten
@@ -87,7 +91,135 @@ example : WF exampleProgram := by
 example : sem false exampleProgram =
     [3, 6, 5, 17, 11, 18, 18, 24, 0, 28, 0, 48, 0, -52, 0, 88, 2, 102, 4, 116] := by decide
 
+/-- the same through the word reader: the bytes `encodeFile` writes (magic, version byte, bit stream
+    zero-padded to whole 32-bit words) decode to `sem` with the decoder that exists -/
+theorem decode_encode_file (p : Program) (convert : Bool) (hwf : WF p) :
+    decodeFile convert (encodeFile p) = .ok (sem convert p) :=
+  decodeFile_encodeFile p convert hwf
+
+example : decodeFile false (encodeFile exampleProgram) = .ok (sem false exampleProgram) := by rfl
+
+/-- the monitored decoder (what the driver runs) returns the same samples, together with its verdict on
+    whether every intermediate value stayed inside `int32` -/
+theorem decode_encode_monitored (p : Program) (convert : Bool) (hwf : WF p) (r : List Bool) :
+    ∃ fl, decodeBitsM (p.hdr.version : Int) convert (encode p ++ r) = .ok (sem convert p, fl) := by
+  have h := decodeBits_encode p convert hwf r
+  unfold decodeBits decodeBitsF at h
+  unfold decodeBitsM decodeBitsFM
+  rw [versionOk_of_wf _ hwf.1 hwf.2.1, if_pos rfl] at h ⊢
+  have hm := Prog.runM_run uvarGet (mainProg (p.hdr.version : Int).toNat convert ((encode p ++ r).length + 1))
+    (encode p ++ r) true
+  cases hr : (mainProg (p.hdr.version : Int).toNat convert ((encode p ++ r).length + 1)).runM uvarGet
+      (encode p ++ r) true with
+  | error e => rw [hr] at hm; simp only at hm; rw [← hm] at h; simp at h
+  | ok v =>
+    obtain ⟨out, s', fl⟩ := v
+    rw [hr] at hm
+    simp only at hm
+    rw [← hm] at h
+    simp only [Except.ok.injEq] at h
+    exact ⟨fl, by simp [h]⟩
+
+/-- the loop bounds are never exhausted, on any input: they are proof devices, not behaviour -/
+theorem no_fuel_error (v : Int) (convert : Bool) (bits : List Bool) (body : List Nat) (hb : Bytes body) :
+    decodeBits v convert bits ≠ .error .fuel ∧ decodeFile convert body ≠ .error .fuel :=
+  ⟨decodeBits_ne_fuel v convert bits, decodeFile_ne_fuel convert body hb⟩
+
+/-- … and any bound above the number of bits left gives the same result -/
+theorem fuel_irrelevant (v : Nat) (convert : Bool) (f g : Nat) (b : List Bool)
+    (hf : b.length < f) (hg : b.length < g) :
+    (mainProg v convert f).run uvarGet b = (mainProg v convert g).run uvarGet b :=
+  mainProg_fuel_irrelevant v convert f g b hf hg
+
+/-! ## every sample array has a well-formed program (the lossless claim) -/
+
+/-- PCM-like sample types: for every channel count, length and sample values there is a well-formed
+    program (one DIFF0 block per channel, any residual width `resn`) whose meaning is exactly those
+    samples, interleaved frame-major as `read_signal` returns them. -/
+theorem encoder_exists (version ftype n resn : Nat) (convert : Bool) (cols : List (List Int))
+    (hv : 1 ≤ version ∧ version ≤ 2) (hft : ftype < FTYPE_LIMIT) (hpcm : ¬(ftype = TYPE_AU1 ∨ ftype = TYPE_AU2))
+    (hne : cols ≠ []) (hn : 1 ≤ n) (hc : ∀ col ∈ cols, col.length = n) :
+    ∃ p : Program, WF p ∧ p.hdr.version = version ∧ p.hdr.ftype = ftype ∧ p.hdr.nchan = cols.length ∧
+      sem convert p = interleave n cols := by
+  refine ⟨diff0Program version ftype n resn cols, diff0_wf version ftype n resn cols hv.1 hv.2 hft hne hn hc,
+    rfl, rfl, rfl, ?_⟩
+  rw [sem_diff0 version ftype n resn convert cols hne hc]
+  have h1 : ∀ col : List Int, col.map (fixSample ftype 0) = col := by
+    intro col
+    have : (fun v => fixSample ftype 0 v) = id := by
+      funext v; rw [fixSample_pcm 0 v hpcm, Int.shiftLeft_zero]; rfl
+    show List.map (fun v => fixSample ftype 0 v) col = col
+    rw [this, List.map_id]
+  have h2 : (fun v => toPcm convert ftype v) = id := by
+    funext v
+    have : CONVERT_TYPES.contains ftype = false := by
+      simp only [CONVERT_TYPES, TYPE_AU1, TYPE_AU2] at hpcm ⊢
+      simp; omega
+    simp [toPcm, this]
+  simp only [h1, List.map_id']
+  show List.map (fun v => toPcm convert ftype v) _ = _
+  rw [h2, List.map_id]
+
+example : ∃ p : Program, WF p ∧ sem false p = [1, -2, 3, -4, 5, -6] := by
+  obtain ⟨p, h, _, _, _, hs⟩ := encoder_exists 2 TYPE_S16LH 3 4 false [[1, 3, 5], [-2, -4, -6]]
+    (by decide) (by decide) (by decide) (by simp) (by decide) (by simp)
+  exact ⟨p, h, by rw [hs]; decide⟩
+
+/-- every row (bit shift) of `ULAW_OUTWARD` is a permutation of the 256 µ-law bytes -/
+theorem ulaw_outward_rows_bijective (r : Nat) (hr : r < 13) :
+    (ULAW_OUTWARD.getD r #[]).size = 256 ∧ ∀ b, b < 256 → b ∈ (ULAW_OUTWARD.getD r #[]).toList :=
+  outward_rows_perm r hr
+
+/-- µ-law (AU1 / AU2, no bit shift): for every array of µ-law bytes there is a well-formed program whose
+    meaning is exactly those bytes (raw) or their `ULAW2PCM` expansion (`convert`). -/
+theorem encoder_exists_ulaw (version ftype n resn : Nat) (convert : Bool) (cols : List (List Nat))
+    (hv : 1 ≤ version ∧ version ≤ 2) (hau : ftype = TYPE_AU1 ∨ ftype = TYPE_AU2)
+    (hne : cols ≠ []) (hn : 1 ≤ n) (hc : ∀ col ∈ cols, col.length = n)
+    (hbytes : ∀ col ∈ cols, ∀ b ∈ col, b < 256) :
+    ∃ p : Program, WF p ∧ p.hdr.ftype = ftype ∧ p.hdr.nchan = cols.length ∧
+      sem convert p = (interleave n (cols.map (fun col => col.map (fun b => (b : Int))))).map
+        (toPcm convert ftype) := by
+  have hft : ftype < FTYPE_LIMIT := by rcases hau with rfl | rfl <;> decide
+  refine ⟨diff0Program version ftype n resn (cols.map (fun col => col.map (auInward ftype))),
+    diff0_wf version ftype n resn _ hv.1 hv.2 hft (by simpa using hne) hn ?_, rfl, by simp [diff0Program, diff0Hdr], ?_⟩
+  · intro col hm
+    simp only [List.mem_map] at hm
+    obtain ⟨c, hcm, rfl⟩ := hm
+    simp [hc c hcm]
+  · rw [sem_diff0 version ftype n resn convert _ (by simpa using hne)]
+    · congr 2
+      rw [List.map_map]
+      apply List.map_congr_left
+      intro col hcm
+      simp only [Function.comp_apply, List.map_map]
+      apply List.map_congr_left
+      intro b hb
+      exact fixSample_auInward ftype hau b (hbytes col hcm b hb)
+    · intro col hm
+      simp only [List.mem_map] at hm
+      obtain ⟨c, hcm, rfl⟩ := hm
+      simp [hc c hcm]
+
+example : (0 : Nat) < 256 ∧ TYPE_AU2 = 8 := by decide
+
 /-! ## errors -/
+
+/-- **a stream that ends early raises the IOError**: any strict prefix of an encoded stream -/
+theorem early_end (p : Program) (convert : Bool) (hwf : WF p) (m : Nat) (hm : m < (encode p).length) :
+    decodeBits (p.hdr.version : Int) convert ((encode p).take m) = .error (.io .eof) :=
+  decodeBits_truncated p convert hwf m hm
+
+example : decodeBits 2 false ((encode exampleProgram).take 100) = .error (.io .eof) := by rfl
+
+/-- through the word reader: a file whose complete 32-bit words hold only a strict prefix of the encoded
+    stream (truncation anywhere after the version byte, at any byte position) raises the IOError -/
+theorem early_end_file (p : Program) (convert : Bool) (hwf : WF p) (body rest : List Nat)
+    (hb : Bytes body) (hm : body.take 4 = MAGIC) (hv : body.drop 4 = p.hdr.version :: rest)
+    (m : Nat) (hbits : wordBits (body.drop 5) = (encode p).take m) (hlt : m < (encode p).length) :
+    decodeFile convert body = .error (.io .eof) :=
+  decodeFile_truncated p convert hwf body rest hb hm hv m hbits hlt
+
+example : decodeFile false ((encodeFile exampleProgram).take 30) = .error (.io .eof) := by rfl
 
 /-- an unknown function code (after any well-formed prefix of commands) raises the IOError -/
 theorem bad_cmd (p : Program) (convert : Bool) (hwf : WF p) (code : Nat) (hcode : FN_ZERO < code)
